@@ -15,10 +15,11 @@ import (
 // goroutines (producer = main, one poller or 1..2 executor workers) is explored under the engine scheduler.
 
 type c18Elem struct {
-	sched     time.Time
-	handle    *QueueElement[int]
-	cancelled bool // Cancel returned
-	cancelRet int  // stamp
+	sched       time.Time
+	handle      *QueueElement[int]
+	cancelled   bool // Cancel returned
+	cancelRet   int  // stamp
+	cancelClock time.Time
 }
 
 //verif:h prop=C18 p.elems=2/3 preempt=1/2 p.maxfires=2/3 cover=delivered,cancelled,shutdown-pending,dropped-by-flag runs=30000000 timeout=280/3000 steps=400000
@@ -65,24 +66,44 @@ func H_C18_queue() {
 		e.handle = q.Add(v, e.sched)
 		verifrt.Assert(e.handle != nil, "Add refused an element before shutdown")
 	}
-	// optionally cancel one element
-	if c := verifrt.Choose("cancel", n+1); c > 0 {
-		elems[c].handle.Cancel()
-		elems[c].cancelled = true
-		elems[c].cancelRet = verifrt.Stamp()
+	// optionally cancel one element, before or after the shutdown
+	toCancel := verifrt.Choose("cancel", n+1)
+	cancelAfterShutdown := toCancel > 0 && verifrt.Choose("cancelAfterShutdown", 2) == 1
+	doCancel := func() {
+		elems[toCancel].handle.Cancel()
+		elems[toCancel].cancelClock = time.Now()
+		elems[toCancel].cancelled = true
+		elems[toCancel].cancelRet = verifrt.Stamp()
 		verifrt.Cover("cancelled")
 	}
+	if toCancel > 0 && !cancelAfterShutdown {
+		doCancel()
+	}
 	flags := ShutdownFlag(0)
-	switch verifrt.Choose("flags", 3) {
+	switch verifrt.Choose("flags", 4) {
 	case 1:
 		flags = CancelPendingElements
 		verifrt.Cover("dropped-by-flag")
 	case 2:
 		flags = IgnorePendingTimeouts
 		verifrt.GhostPut("ignoreTimeouts", 1)
+	case 3:
+		flags = PanicOnModificationsAfterShutdown // must not change when pending elements are delivered
 	}
 	q.Shutdown(flags)
-	verifrt.Assert(q.Add(9, time.Now()) == nil, "Add accepted an element after shutdown")
+	if cancelAfterShutdown {
+		doCancel()
+	}
+	if flags == PanicOnModificationsAfterShutdown {
+		panicked := false
+		func() {
+			defer func() { panicked = recover() != nil }()
+			q.Add(9, time.Now())
+		}()
+		verifrt.Assert(panicked, "Add after Shutdown(PanicOnModificationsAfterShutdown) did not panic")
+	} else {
+		verifrt.Assert(q.Add(9, time.Now()) == nil, "Add accepted an element after shutdown")
+	}
 	verifrt.MustFinish()
 	wg.Wait() // the poller drains what is still pending and then sees the shutdown
 	verifrt.Assert(!early.Load(), "an element was delivered before its scheduled time")
@@ -95,6 +116,11 @@ func H_C18_queue() {
 		}
 		if e.cancelled && got == 1 {
 			verifrt.Assert(e.cancelRet > pollInvoked[v], "an element was delivered by a Poll that started after its Cancel had returned")
+			// Cancel returned at clock instant cancelClock; a delivery can only happen at or after the scheduled
+			// time, so if Cancel returned strictly before it the element was cancelled before its delivery
+			if flags != IgnorePendingTimeouts { // with that flag a delivery may precede the scheduled time (and the Cancel)
+				verifrt.Assert(!e.cancelClock.Before(e.sched), "an element whose Cancel returned before its scheduled time was delivered anyway")
+			}
 		}
 		droppedBySize := e.handle.rawElem.Index() == -1 && maxSize > 0 && n > maxSize
 		if !e.cancelled && flags != CancelPendingElements && !droppedBySize {
